@@ -44,7 +44,23 @@ pub fn evaluate_expression(expr: &str, facts: &Facts) -> Result<Value> {
     }
 
     // No operator found - must be a single value
-    // Could be: string literal, field reference (Order.quantity), number (100), or variable
+    // Could be: parenthesised sub-expression, string literal, field reference, number, or variable
+
+    // A fully parenthesised sub-expression: evaluate what is inside
+    if let Some(inner) = expr.strip_prefix('(').and_then(|rest| rest.strip_suffix(')')) {
+        let mut balance = 0i32;
+        let wraps_whole = inner.chars().all(|c| {
+            match c {
+                '(' => balance += 1,
+                ')' => balance -= 1,
+                _ => {}
+            }
+            balance >= 0
+        }) && balance == 0;
+        if wraps_whole {
+            return evaluate_expression(inner, facts);
+        }
+    }
 
     // Is it a string literal?
     if expr.len() >= 2 {
@@ -84,14 +100,28 @@ fn find_operator(expr: &str, operators: &[char]) -> Option<usize> {
     let mut paren_depth = 0;
     let mut last_pos = None;
 
+    // A `+`/`-` is a sign, not an operator, when no operand precedes it
+    // (start of the expression, or right after another operator or `(`)
+    let mut operand_before = false;
+
     for (i, ch) in expr.chars().enumerate() {
         match ch {
-            '(' => paren_depth += 1,
-            ')' => paren_depth -= 1,
-            _ if paren_depth == 0 && operators.contains(&ch) => {
-                last_pos = Some(i);
+            '(' => {
+                paren_depth += 1;
+                operand_before = false;
             }
-            _ => {}
+            ')' => {
+                paren_depth -= 1;
+                operand_before = true;
+            }
+            _ if ch.is_whitespace() => {}
+            '+' | '-' | '*' | '/' | '%' => {
+                if paren_depth == 0 && operators.contains(&ch) && operand_before {
+                    last_pos = Some(i);
+                }
+                operand_before = false;
+            }
+            _ => operand_before = true,
         }
     }
 
